@@ -63,7 +63,8 @@ theorem global_rng_users_documented :
 theorem caller_cells_frame (tbl : List Gen.EffRow) (ops : List Op) (s : State) (c : Cell)
     (halloc : ∀ op ∈ ops, op.res ≠ some c) (h : (run tbl s ops).val c ≠ s.val c) :
     ∃ pre op post, ops = pre ++ op :: post ∧
-      ∃ b ∈ op.bind, b.1 ∈ writeSlots tbl op ∧ (c = b.2 ∨ c ∈ (run tbl s pre).refs b.2) := by
+      ∃ b ∈ op.bind, b.1 ∈ writeSlots tbl op ∧ (c = b.2 ∨ ∃ a, (a, c) ∈ (run tbl s pre).refs b.2 ∧
+        ((writeAttrs tbl op b.1).isEmpty = true ∨ a ∈ writeAttrs tbl op b.1)) := by
   induction ops generalizing s with
   | nil => exact absurd rfl h
   | cons op rest ih =>
@@ -82,7 +83,8 @@ theorem caller_cell_changes_only_under_documented_inplace (ops : List Op) (s : S
     (halloc : ∀ op ∈ ops, op.res ≠ some c) (h : (run Gen.effTable s ops).val c ≠ s.val c) :
     ∃ pre op post, ops = pre ++ op :: post ∧ ∃ b ∈ op.bind,
       (op.fn, b.1) ∈ documentedInPlace ∧
-      (c = b.2 ∨ c ∈ (run Gen.effTable s pre).refs b.2) := by
+      (c = b.2 ∨ ∃ a, (a, c) ∈ (run Gen.effTable s pre).refs b.2 ∧
+        ((writeAttrs Gen.effTable op b.1).isEmpty = true ∨ a ∈ writeAttrs Gen.effTable op b.1)) := by
   obtain ⟨pre, op, post, he, b, hb, hs, hc⟩ := caller_cells_frame Gen.effTable ops s c halloc h
   refine ⟨pre, op, post, he, b, hb, ?_, hc⟩
   obtain ⟨r, hr, hp⟩ := hpub op (by rw [he]; simp)
@@ -198,6 +200,37 @@ theorem plane_state_total_invariant {R : Type} [Field R] [RealLike R] (h1 : (Rea
         ((tiltRun s0 s1 px0 px1 mask ops' (opd, ts)).2.map Prod.snd).sum i j := by
   rw [Lentil.C04.fit_tilt_history h1, Lentil.C04.fit_tilt_history h1, hsame]
 
+/-- slot- and attribute-specific frame: an in-place tilt fit may write, of what the plane holds by reference, only what it holds
+through `opd` or `tilt` — a caller's amplitude (or any other) array held by the plane is outside its write set, in every state -/
+theorem inplace_fit_never_writes_amplitude (s : State) (op : Op) (hfn : op.fn = "plane.Plane.fit_tilt") (c : Cell)
+    (hc : c ∈ writeCells Gen.effTable s op) :
+    ∃ b ∈ op.bind, c = b.2 ∨ (("opd", c) ∈ s.refs b.2 ∨ ("tilt", c) ∈ s.refs b.2) := by
+  obtain ⟨b, hb, hs, h⟩ := (mem_writeCells Gen.effTable s op c).mp hc
+  refine ⟨b, hb, ?_⟩
+  have hslot : b.1 = "self" := by
+    have hrow : (row? Gen.effTable "plane.Plane.fit_tilt").map (fun r => r.writes.map (·.1)) = some ["self"] := by decide +kernel
+    simp only [writeSlots, hfn] at hs
+    cases hr : row? Gen.effTable "plane.Plane.fit_tilt" with
+    | none => rw [hr] at hrow; simp at hrow
+    | some r =>
+      rw [hr] at hrow hs
+      simp only [Option.map_some, Option.some.injEq] at hrow
+      by_cases hg : (inplaceGated.contains "plane.Plane.fit_tilt" && !op.inplace) = true
+      · simp only [hg, if_true] at hs; exact absurd hs List.not_mem_nil
+      · simp only [hg, if_false, hrow] at hs; simpa using hs
+  have hattrs : writeAttrs Gen.effTable op "self" = ["opd", "tilt"] := by
+    simp only [writeAttrs, hfn]; decide +kernel
+  rcases h with h | ⟨a, ha, hok⟩
+  · exact Or.inl h
+  · right
+    rw [hslot, hattrs] at hok
+    rcases hok with hok | hok
+    · simp at hok
+    · simp only [List.mem_cons, List.mem_nil_iff, or_false] at hok
+      rcases hok with rfl | rfl
+      · exact Or.inl ha
+      · exact Or.inr ha
+
 /-- non-vacuity: a two-call history (construct a plane from caller arrays 0 and 1, fit its tilt in place) in which the
 frame theorem's conclusion is the in-place fit on the plane that holds cell 1 by reference -/
 example :
@@ -206,7 +239,7 @@ example :
     let fit : Op := { mk with fn := "plane.Plane.fit_tilt", bind := [("self", 2)], res := none, inplace := true }
     let fitCopy : Op := { fit with inplace := false, res := some 3 }
     let s0 : State := { val := fun _ => 0, refs := fun _ => [], rng := 0, cache := fun _ => none }
-    (run Gen.effTable s0 [mk, fit]).val 1 = 7 ∧ (run Gen.effTable s0 [mk, fit]).val 0 = 7 ∧ (run Gen.effTable s0 [mk]).val 1 = 0 ∧
+    (run Gen.effTable s0 [mk, fit]).val 1 = 7 ∧ (run Gen.effTable s0 [mk, fit]).val 0 = 0 ∧ (run Gen.effTable s0 [mk]).val 1 = 0 ∧
       (run Gen.effTable s0 [mk, fitCopy]).val 1 = 0 := by
   decide +kernel
 
